@@ -111,3 +111,9 @@ def random_opts(rng):
         if rng.random() < 0.3:
             o[k] = rng.random() < 0.5
     return o
+
+
+# The boolean-attribute table the recorded finding `boolean-attribute-value-minimised` is ABOUT (html5lib 1.1's table, pinned
+# here): an attribute that is minimised although it is not in THIS table is a new violation, whatever the library's table says.
+BOOLEAN_ATTRIBUTES_PINNED = {'': ['irrelevant', 'itemscope'], 'audio': ['autoplay', 'controls'], 'button': ['autofocus', 'disabled'], 'command': ['checked', 'default', 'disabled', 'hidden'], 'datagrid': ['disabled', 'multiple'], 'details': ['open'], 'fieldset': ['disabled', 'readonly'], 'hr': ['noshade'], 'iframe': ['seamless'], 'img': ['ismap'], 'input': ['autofocus', 'checked', 'disabled', 'ismap', 'readonly', 'required'], 'menu': ['autosubmit'], 'ol': ['reversed'], 'optgroup': ['disabled', 'readonly'], 'option': ['disabled', 'readonly', 'selected'], 'output': ['disabled', 'readonly'], 'script': ['async', 'defer'], 'select': ['autofocus', 'disabled', 'multiple', 'readonly'], 'style': ['scoped'], 'video': ['autoplay', 'controls']}
+BOOLEAN_ATTRIBUTES_PINNED = {k: frozenset(v) for k, v in BOOLEAN_ATTRIBUTES_PINNED.items()}
